@@ -615,6 +615,27 @@ impl SpanInfo {
 
 /// ## Parsing
 
+// Namespaces in XML, "Reserved Prefixes and Namespace Names": nothing but the
+// prefix xml is bound to the XML namespace, and neither the prefix xmlns nor
+// its namespace can be declared.
+fn is_reserved_declaration(prefix: &str, namespace_uri: &str) -> bool {
+    const XML_NAMESPACE: &str = "http://www.w3.org/XML/1998/namespace";
+    const XMLNS_NAMESPACE: &str = "http://www.w3.org/2000/xmlns/";
+    // (rebinding the xml prefix itself is let through: the name lookup
+    // honours it)
+    prefix == "xmlns"
+        || namespace_uri == XMLNS_NAMESPACE
+        || (prefix != "xml" && namespace_uri == XML_NAMESPACE)
+}
+
+fn reserved_declaration_error(tokenizer: &Tokenizer<'_>, position: usize) -> ParseError {
+    let text_pos = tokenizer.stream().gen_text_pos_from(position);
+    ParseError::XmlParser(
+        xmlparser::Error::InvalidAttribute(xmlparser::StreamError::InvalidName, text_pos),
+        position,
+    )
+}
+
 /// Offset of the tab, carriage return or line feed that follows `<?xml` at the
 /// very start of a document (after an optional byte order mark), if any.
 fn xml_declaration_separator(xml: &str) -> Option<usize> {
@@ -774,10 +795,16 @@ impl Xot {
                     } => {
                         if prefix.as_str() == "xmlns" {
                             let uri = parse_attribute(value.as_str().into(), value.start())?;
+                            if is_reserved_declaration(local.as_str(), &uri) {
+                                return Err(reserved_declaration_error(&tokenizer, local.start()));
+                            }
                             let span = Span::from_prefix_name(prefix, local);
                             builder.prefix(local.as_str(), &uri, span, self)?;
                         } else if prefix.is_empty() && local.as_str() == "xmlns" {
                             let uri = parse_attribute(value.as_str().into(), value.start())?;
+                            if is_reserved_declaration("", &uri) {
+                                return Err(reserved_declaration_error(&tokenizer, local.start()));
+                            }
                             builder.prefix("", &uri, local.into(), self)?;
                         } else {
                             builder.attribute(prefix, local, value)?;
@@ -841,6 +868,19 @@ impl Xot {
                         content,
                         span: _,
                     } => {
+                        // the target xml (in any case) is reserved; the
+                        // tokenizer lets it through when it is not followed
+                        // by a space
+                        if target.as_str().eq_ignore_ascii_case("xml") {
+                            let text_pos = tokenizer.stream().gen_text_pos_from(target.start());
+                            return Err(ParseError::XmlParser(
+                                xmlparser::Error::InvalidPI(
+                                    xmlparser::StreamError::InvalidName,
+                                    text_pos,
+                                ),
+                                target.start(),
+                            ));
+                        }
                         if let Some(content) = content {
                             // there has to be white space between the target
                             // and the data; the tokenizer splits '<?pi+d?>'
